@@ -124,9 +124,11 @@ class Canon(ast.NodeTransformer):
                 return None
             inside_ids = {id(n) for n in ast.walk(loop)
                           if isinstance(n, ast.Name) and n.id == t}
-            all_ids = {id(n) for n in ast.walk(fn)
-                       if isinstance(n, ast.Name) and n.id == t}
-            if inside_ids != all_ids:
+            outside_loads = [n for n in ast.walk(fn)
+                             if isinstance(n, ast.Name) and n.id == t
+                             and id(n) not in inside_ids
+                             and isinstance(n.ctx, ast.Load)]
+            if outside_loads and not _reads_own_defs(fn, t, outside_loads):
                 return None
             if t in {a.arg for a in fn.args.args + fn.args.kwonlyargs}:
                 return None
@@ -384,6 +386,28 @@ class Canon(ast.NodeTransformer):
 def _copy(t):
     import copy
     return copy.deepcopy(t)
+
+
+def _reads_own_defs(fn, name, loads):
+    """Every given read of ``name`` sits in a loop body that assigns the
+    name, at its top level, before the statement containing the read."""
+    for ld in loads:
+        ok = False
+        for lp in ast.walk(fn):
+            if not isinstance(lp, (ast.For, ast.While)):
+                continue
+            assigned = False
+            for st in lp.body:
+                if any(x is ld for x in ast.walk(st)):
+                    ok = ok or assigned
+                    break
+                if isinstance(st, ast.Assign) and any(
+                        isinstance(tg, ast.Name) and tg.id == name
+                        for tg in st.targets):
+                    assigned = True
+        if not ok:
+            return False
+    return True
 
 
 def _reiterable(e):
